@@ -190,6 +190,23 @@ def _register_jump_graph():
 _register_jump_graph()
 
 
+@harness("blocks.bytes_to_blocks.every_jump_opcode_opens_exactly_its_target", props=["C13", "C02"], functions=["code_data._blocks.bytes_to_blocks"], configs="all", engine="E2",
+         notes="bounded: for every opcode the interpreter lists in hasjabs/hasjrel (CALL_FINALLY, SETUP_*, FOR_ITER, JUMP_IF_NOT_EXC_MATCH ... included), a three-instruction sequence whose "
+               "first instruction is that jump to the third: blocks open at {0} and at the target only - the instruction after a jump is not a block start unless something jumps to it")
+def h_every_jump_opcode(ctx, cfg):
+    ns = b2b_ns()
+    T = cfg.tables
+    nop = T["opmap"]["NOP"]
+    for op in sorted(set(T["hasjabs"]) | set(T["hasjrel"])):
+        rel = op in T["hasjrel"]
+        seq = [(op, 0, 1, 0, 2), (nop, 0, 1, 2, 4), (nop, 0, 1, 4, 6)]
+        ns["_parse_bytes"] = lambda b, seq=seq: iter(seq)
+        ns["to_arg"] = lambda opcode, arg, next_offset, *tables, op=op, rel=rel: Jump(4, rel) if opcode == op else NoArg(arg)
+        lm = L.LineMapping({0: 1, 2: 1, 4: 1}, {})
+        blocks, _ = ns["bytes_to_blocks"]("CODE", lm, (), (), (), (), (), None, Args())
+        ctx.prove("post.blocks_open_at_0_and_at_the_target_only[%s]" % T["opname"][op], z3.BoolVal([len(b) for b in blocks] == [2, 1] and blocks[0][0].arg == Jump(1, rel)), detail=repr(blocks))
+
+
 # --------------------------------------------------------------------------------------------------
 # The relaxation (fix-point) loop of blocks_to_bytes on jump graphs of bounded *shape* but unbounded *distances*:
 # a run of k NOPs is one pseudo-instruction whose width override is the symbolic k.
